@@ -106,6 +106,10 @@ add("b4_utf8_step_err_quick", "yaml::encoding",
 add("b4_utf8_step_full", "yaml::encoding", desc="B4 with 3 pending chars and caller buffer 0..9 (covers the direct-encode loop for buffers >= 4 twice)",
     bounds="3 pending chars, remainder any, caller buffer 0..9", functions=B_FUN[4:7], covers=["B4 char split across two reads"],
     tier="thorough", props=["C07", "C04", "C02"], timeout=3000, mem_gb=20, assumptions=B4_ASM, best_effort=True)
+add("b7_array_buffer_programs", "yaml::encoding",
+    desc="ArrayBuffer<4>: every program of 4 operations (write, read, consume, set; fill_buf and is_empty observed after every step) behaves as a bounded FIFO: bytes come out in the order they were accepted, each once; is_empty exactly when everything accepted has been taken; write accepts what still fits; set replaces the content",
+    bounds="capacity 4, 4 operations, operands 0..3 bytes of any value", functions=["yaml::encoding::ArrayBuffer::{new,unread,is_empty,set}", "<ArrayBuffer as Read>::read", "<ArrayBuffer as BufRead>::{fill_buf,consume}", "<ArrayBuffer as Write>::write"],
+    covers=["B7 second read continues where the first stopped", "B7 filled and drained"], props=["C07", "C02", "C03", "C04"], timeout=600, mem_gb=8)
 add("b5_encoder_utf16", "yaml::encoding",
     desc="Encoder::new(UTF-16) end to end through the real type wiring: output = reference UTF-8 of the decoded scalars, one leading BOM stripped, ill-formed -> Err",
     bounds="0..4 source bytes (2 units), both byte orders, every source windowing, caller buffers 1..5, <= 8 reads", functions=B_FUN,
